@@ -484,6 +484,13 @@ def check(ctx):
             ctx.violation('R11-total-reads', rp, 'Packet.__repr__', 'contains a raise statement', rp.node.lineno)
     check_total_reads(ctx, pk, readers)
     check_init_unpack_agree(ctx)
+    # "change one field of one of two equal packets, at any depth, and they differ": the two packets
+    # share no mutable value -- what init stores is the keyword or a deep copy of the declared
+    # default (C19 init rule), and nothing a field hands out is shared (C13 freshness)
+    from .c19 import check_inits
+    from .c13 import check_freshness
+    check_inits(ctx)
+    check_freshness(ctx)
     # __repr__ shows every field of get_fields()
     if rp is not None:
         lps = reachable_loops(rp)
